@@ -19,8 +19,9 @@ TIMING_LINE_PATTERN = re.compile(r"^(\S+)\s+-->\s+(\S+)(?:\s+(.*?))?\s*$")
 TIMESTAMP_PATTERN = re.compile(r"^(\d+):(\d{2})(:\d{2})?\.(\d{3})")
 VOICE_SPAN_PATTERN = re.compile("<v(\\.\\w+)* ([^>]*)>")
 OTHER_SPAN_PATTERN = re.compile(
-    r"</?([cibuv]|ruby|rt|lang|(\d+):(\d{2})(:\d{2})?\.(\d{3})).*?>"
-)  # These WebVTT tags are stripped off the cues on conversion
+    r"</?(([cibuv]|ruby|rt|lang)(?=[\s.>])|(\d+):(\d{2})(:\d{2})?\.(\d{3})).*?>"
+)  # These WebVTT tags are stripped off the cues on conversion (the tag name
+# must be complete: <bold> or <video> are not WebVTT tags)
 
 WEBVTT_VERSION_OF = {
     HorizontalAlignmentEnum.LEFT: "left",
